@@ -2,6 +2,7 @@ package main
 
 import (
 	"fmt"
+	"strings"
 	"time"
 
 	"github.com/lindb/lindb/pkg/timeutil"
@@ -29,13 +30,21 @@ func lindbCalc(typ string) timeutil.IntervalCalculator {
 
 type calcChecker struct {
 	e        *childEnv
+	out      obs    // where violations / non-trivial keys go (the child record, or a per-goroutine collector of the concurrent part)
+	cntPre   string // counter name prefix replacing "calc/" ("" = keep)
+	ntPart   string // part name inside non-trivial keys
 	calcs    map[string]timeutil.IntervalCalculator
 	evals    int64
 	cnt      map[string]int64
 	twSample map[string]bool
 }
 
-func (cc *calcChecker) count(name string, n int) { cc.cnt[name] += int64(n) }
+func (cc *calcChecker) count(name string, n int) {
+	if cc.cntPre != "" && strings.HasPrefix(name, "calc/") {
+		name = cc.cntPre + strings.TrimPrefix(name, "calc/")
+	}
+	cc.cnt[name] += int64(n)
+}
 
 // flush moves the lock-free local counters into the record.
 func (cc *calcChecker) flush() {
@@ -47,7 +56,7 @@ func (cc *calcChecker) flush() {
 }
 
 func newCalcChecker(e *childEnv) *calcChecker {
-	cc := &calcChecker{e: e, calcs: map[string]timeutil.IntervalCalculator{}, cnt: map[string]int64{}, twSample: map[string]bool{}}
+	cc := &calcChecker{e: e, out: e.rec, ntPart: "calc", calcs: map[string]timeutil.IntervalCalculator{}, cnt: map[string]int64{}, twSample: map[string]bool{}}
 	for _, t := range allTypes {
 		cc.calcs[t] = lindbCalc(t)
 		for _, iv := range intervalsByType[t] {
@@ -69,7 +78,7 @@ func newCalcChecker(e *childEnv) *calcChecker {
 // check runs every calculator relation for one timestamp. u is a per-timestamp pseudo random number.
 func (cc *calcChecker) check(ts int64, u uint64) {
 	e := cc.e
-	r := e.rec
+	r := cc.out
 	cal := e.cal
 	for _, typ := range allTypes {
 		calc := cc.calcs[typ]
@@ -202,14 +211,14 @@ func (cc *calcChecker) check(ts int64, u uint64) {
 				cc.count("calc/"+typ+"/time_windows_differs_from_family_count(reported_only,unused_code)", 1)
 				if !cc.twSample[typ] {
 					cc.twSample[typ] = true
-					r.Sample(map[string]interface{}{"part": "calc", "tz": e.tz, "reported_only": "CalcTimeWindows", "type": typ,
+					e.rec.Sample(map[string]interface{}{"part": "calc", "tz": e.tz, "reported_only": "CalcTimeWindows", "type": typ,
 						"start": cal.fmt(ts), "end": cal.fmt(end), "got": got, "families": want})
 				}
 			}
 		}
 		// --- coverage bookkeeping
 		if k := boundaryKind(b, ts); k != "" {
-			r.Nontrivial(e.tz + "|calc|" + typ + "|" + b.SegName + "|" + k)
+			r.Nontrivial(e.tz + "|" + cc.ntPart + "|" + typ + "|" + b.SegName + "|" + k)
 			cc.count("calc/"+typ+"/boundary_cases_"+k, 1)
 		}
 		cc.count("calc/"+typ+"/timestamps", 1)
